@@ -172,6 +172,8 @@ class Engine:
             return SV(z3.If(sv.t, 1, 0), "int")
         if sv.pt in NATIVE:
             raise Untranslatable(f"cannot use {sv.pt} as {pt}")
+        if sv.t is None:
+            raise Untranslatable(f"python-level value used as {pt}: {sv.py!r}"[:160])
         self.typing_assumptions += 1
         f = {"int": v.V2I, "bool": v.V2B, "float": v.V2R, "str": v.V2S}[pt]
         return SV(f(sv.t), pt)
